@@ -11,9 +11,10 @@ PROP = "C19"
 def run(tier, seed, work, replay):
     res = E.Result(PROP, tier, seed)
     cov = res.cov
-    for cfg in ("MC_KMClient.cfg", "MC_KMClient_noagent.cfg"):
+    for cfg in ("MC_KMClient.cfg", "MC_KMClient_noed25519.cfg"):
         E.tlc_mc(work, "KMClient", cfg, cov)
-    for neg in ("Neg_KMClient_ServerLacksP384.cfg", "Neg_KMClient_AppendsInAgent.cfg"):
+    for neg in ("Neg_KMClient_ServerLacksP384.cfg", "Neg_KMClient_AppendsInAgent.cfg", "Neg_KMClient_SkipsExpired.cfg",
+                "Neg_KMClient_RemovesFirstOnly.cfg", "Neg_KMClient_WorldReadableKey.cfg", "Neg_KMClient_SendsSeedForEd25519.cfg"):
         r = E.tlc(work, "KMClient", neg, timeout=200, tag=neg)
         if not r["violated"]:
             raise E.Inconclusive("negative control %s found no violation" % neg)
@@ -40,10 +41,12 @@ def run(tier, seed, work, replay):
         cases = []
         for p in prefs:
             for m in modes:
-                for a in (True, False):
+                for a, am in ((True, "ok"), (False, "none"), (True, "nolifetime"), (True, "refuse")):
                     if tier == "quick" and m != "password" and (p != "p256"):
                         continue   # RSA-3072 generation dominates: the full product is the thorough tier
-                    cases.append({"pref": p, "mode": m, "agent": a})
+                    if tier == "quick" and am in ("nolifetime", "refuse") and not (p == "p256" and m == "password"):
+                        continue
+                    cases.append({"pref": p, "mode": m, "agent": a, "agentmode": am})
         cp = work.path("cases.ndjson")
         E.write_ndjson(cp, cases)
         epath, _ = E.run_harness(cbin, PROP, work, cases=cp, env={"VERIF_SERVERS": ready}, cwd=os.path.join(E.REPO, "cmd/keymaster"), timeout=1500)
@@ -62,7 +65,7 @@ def run(tier, seed, work, replay):
     cov["client_runs_ok"] = sum(1 for e in evs if e["out"]["ok"])
     cov["wire_bytes_searched"] = sum(e["out"]["wireBytes"] for e in evs)
     cov["rule"] = ("client runs = key preference (rsa, p256, p384) x second-factor deployment (password only, local TOTP, VIP push) x "
-                   "SSH agent present / absent; each run is the real setupCerts twice against the real server handlers over TLS, "
+                   "SSH agent present / absent / refusing entries with a lifetime / refusing everything (pre-seeded with leftovers); each run is the real setupCerts twice against the real server handlers over TLS, "
                    "every request recorded at the HTTP transport; evaluations = HTTP requests sent")
     res.sample(evs[0])
     for d in devs:
